@@ -70,10 +70,20 @@ func c06Run(r *proposalctl.Reconciler, idx int, wantValid bool) bool {
 	c06Props[idx].Status.Phases.Commit = &configapi.ProposalCommitPhase{}
 	_, err = r.Reconcile(id)
 	verifrt.Assert(err == nil && c06Props[idx].Status.Phases.Commit.State == configapi.ProposalCommitPhase_COMMITTED, "commit-completes")
-	c06Props[idx].Status.Phases.Apply = &configapi.ProposalApplyPhase{}
-	_, err = r.Reconcile(id)
-	verifrt.Assert(err == nil && c06Props[idx].Status.Phases.Apply.State == configapi.ProposalApplyPhase_APPLIED, "apply-completes")
+	if !c06Pipelined {
+		c06Apply(r, idx)
+	}
 	return true
+}
+
+// c06Pipelined: the changes of the history are applied to the device only after ALL of them were validated and committed
+// (validation of change N waits for the commit of N-1, not for its apply: a legal interleaving when the device is slow)
+var c06Pipelined bool
+
+func c06Apply(r *proposalctl.Reconciler, idx int) {
+	c06Props[idx].Status.Phases.Apply = &configapi.ProposalApplyPhase{}
+	_, err := r.Reconcile(controller.NewID(c06Props[idx].ID))
+	verifrt.Assert(err == nil && c06Props[idx].Status.Phases.Apply.State == configapi.ProposalApplyPhase_APPLIED, "apply-completes")
 }
 
 // VerifC06History: a history of Sets (operations of the C03 universe; the last one may also be a request with two
@@ -96,6 +106,7 @@ func VerifC06History() {
 	vStates[0] = int32(configapi.TransactionStatus_APPLIED)
 	pr := proposalctl.NewReconcilerForVerif(&c04Topo{}, &c04Conns{}, &c06PropStore{}, store, &c06Registry{})
 	h := verifrt.Param("sets")
+	c06Pipelined = h >= 2 && verifrt.Fork("pipelined", 2) == 1
 	var snapLive [cfgstore.VLeaves]bool
 	var snapVal [cfgstore.VLeaves]uint8
 	for s := 1; s <= h; s++ {
@@ -156,6 +167,12 @@ func VerifC06History() {
 				refLive[j], refVal[j] = true, tag
 			}
 		}
+	}
+	if c06Pipelined {
+		for s := 1; s <= h; s++ {
+			c06Apply(pr, s)
+		}
+		c06Pipelined = false
 	}
 	verifrt.Cover("history-applied")
 	// ---- roll back the last change (log entry h+1)
